@@ -3,6 +3,8 @@ package props
 import (
 	"fmt"
 	"go/constant"
+	"go/token"
+	"go/types"
 	"strings"
 
 	"golang.org/x/tools/go/ssa"
@@ -201,6 +203,36 @@ func ruleDeleg(e *Env, rule, pkg string) {
 				cases = append(cases, vc{"%" + string(v), pred.Const{V: constant.MakeInt64(int64(v))}, fl})
 			}
 			cases = append(cases, vc{"other verb", pred.Sym{Name: "verb"}, spec.defaultVerb})
+			// every further verb the code itself singles out (`if verb == 'v'`, a case 'q' in the verb function): not in the
+			// documented table, so it must render like any other verb — each gets a scenario of its own, because the
+			// symbolic "other verb" differs from every constant it is compared with
+			seenVerb := map[int64]bool{}
+			for _, f := range flow.SortedFuncs(e.C.Reachable(fn)) {
+				if !flow.InRepo(f) || f.Pkg != fn.Pkg {
+					continue
+				}
+				for _, b := range f.Blocks {
+					for _, in := range b.Instrs {
+						bo, ok := in.(*ssa.BinOp)
+						if !ok || (bo.Op != token.EQL && bo.Op != token.NEQ) {
+							continue
+						}
+						for _, side := range [][2]ssa.Value{{bo.X, bo.Y}, {bo.Y, bo.X}} {
+							k, isK := side[0].(*ssa.Const)
+							bt, isB := side[1].Type().Underlying().(*types.Basic)
+							if !isK || k.Value == nil || k.Value.Kind() != constant.Int || !isB || bt.Kind() != types.Int32 {
+								continue
+							}
+							r, exact := constant.Int64Val(k.Value)
+							if _, documented := spec.verbs[rune(r)]; !exact || documented || seenVerb[r] || r < 0x20 || r > 0x7e {
+								continue
+							}
+							seenVerb[r] = true
+							cases = append(cases, vc{"%" + string(rune(r)) + " (singled out, not documented)", pred.Const{V: constant.MakeInt64(r)}, spec.defaultVerb})
+						}
+					}
+				}
+			}
 			for _, c := range cases {
 				call := fmtCall(c.flag)
 				fixed := func(a, b pred.Val) (int, bool, bool) {
